@@ -77,6 +77,7 @@ type prodHooks struct {
 
 func (h *prodHooks) OnProduceRecordBuffered(r *kgo.Record) {
 	st := h.st
+	defer st.s.UserCode()
 	st.mu.Lock()
 	defer st.mu.Unlock()
 	if p := st.byPtr[r]; p != nil {
@@ -89,6 +90,7 @@ func (h *prodHooks) OnProduceRecordBuffered(r *kgo.Record) {
 
 func (h *prodHooks) OnProduceRecordUnbuffered(r *kgo.Record, err error) {
 	st := h.st
+	defer st.s.UserCode()
 	st.mu.Lock()
 	defer st.mu.Unlock()
 	if p := st.byPtr[r]; p != nil {
@@ -207,6 +209,7 @@ func (st *prodState) promise(p *prec) func(*kgo.Record, error) {
 		if cancel != nil {
 			cancel() // event-triggered: runs while other goroutines are runnable
 		}
+		st.s.UserCode()
 	}
 }
 
